@@ -461,6 +461,16 @@ def _session(prop, rng, n_req):
             nt = _clock_instant(rng, h0, 0, lo, hi)
             evs.append({"ev": "set", "to": fmt_ts(nt), "boundary": True})
             t = nt
+        elif prop == "C05" and f["c"] == "abs" and r < 0.18:
+            # the reference time ON or right next to the written date (an explicit date must
+            # not start to behave like "today" / "this week")
+            y_, m_, d_ = f["p"][:3]
+            base_ = datetime(y_, m_, d_) + timedelta(days=rng.choice([0, 0, 0, 1, -1, 7, -7]))
+            nt = base_ + timedelta(seconds=rng.choice([0, 8 * 3600, 15 * 3600, 86399,
+                                                       rng.randint(0, 86399)]))
+            if datetime(1971, 1, 1) <= nt <= datetime(2099, 12, 31):
+                evs.append({"ev": "set", "to": fmt_ts(nt), "boundary": True})
+                t = nt
         elif prop == "C06":
             nt = _clock_instant(rng, f["p"][0], f["p"][1], lo, hi)
             if f["t"] in ("clock:{hh}{mm} uhr", "clock:{hh}{mm}h") and f["p"][0] == 20 \
